@@ -5,7 +5,7 @@ from collections import namedtuple
 from copy import deepcopy
 from lxml import etree
 from xmldiff.diff_match_patch import diff_match_patch
-from xmldiff import utils
+from xmldiff import patch, utils
 
 
 DIFF_NS = "http://namespaces.shoobx.com/diff"
@@ -811,11 +811,20 @@ class XmlDiffFormatter(BaseFormatter):
         return
 
     def format(self, diff, orig_tree):
-        # This Formatter don't need the left tree, but the XMLFormatter
-        # does, so the parameter is required.
+        # The node paths of an action refer to the tree as it is when the
+        # action is applied, so the actions are applied to a copy as we go.
+        tree = deepcopy(orig_tree)
+        if isinstance(tree, etree._ElementTree):
+            tree = tree.getroot()
+        patcher = patch.Patcher()
+        if tree is not None:
+            patcher._nsmap = {k: v for k, v in tree.nsmap.items() if k is not None}
+
         actions = []
         for action in diff:
-            actions.extend(self.handle_action(action, orig_tree))
+            actions.extend(self.handle_action(action, tree))
+            if tree is not None:
+                patcher.handle_action(action, tree)
         res = "\n".join(self._format_action(action) for action in actions)
         return res
 
